@@ -87,7 +87,7 @@ def gen_cases(rng: random.Random, n: int, tier: str):
         out.append({"kind": "run", "api": api, "nprocs": nprocs, "threads": threads,
                     "schedule": [rng.randrange(6) for _ in range(rng.randint(0, 60))], "seed": rng.randrange(1 << 30)})
     if tier == "thorough":
-        out += exhaustive_programs()
+        out += [dict(c, limit=6000) for c in exhaustive_programs()]
     return out
 
 
@@ -172,12 +172,15 @@ class Exec:
         self.api = case["api"]
         self.rt = Runtime(_SRC, case["nprocs"])
         self.k, self.mon, self.tags = [], [], set()
-        self.model_on = drv is not None and self.api == "thread"
+        self.model_on = drv is not None
         self.nchoices = []
         if self.model_on:
             drv.ask(["reset", True])
         self.tid_of = {}
         self._req_of_event = {}
+        self._pl_entering = set()
+        self.tl_entered = set()  # (tid, req id) whose thread-level frame exists
+        self.npids = case["nprocs"]
         for i, t in enumerate(case["threads"]):
             tid = 100 + i
             vt = self.rt.spawn(t["proc"], tid, t["prog"], self.body)
@@ -218,26 +221,62 @@ class Exec:
             run_req(r)
         vt.phase = ("done", None)
 
-    # ---- mapping of the parked point to the Lean model's event
+    # ---- mapping of the parked point to the Lean models' events
     def model_event(self, vt):
+        """('tl'|'pl', event) for the transition the parked thread will perform when granted, or None."""
         if vt.pending is None or vt.phase is None:
             return None
         desc = vt.pending[0]
         ph, req = vt.phase
+        if req is None:
+            return None
         VLock, VRLock, VCond = self.rt.procs[vt.proc]["_classes"]
+        entered = (vt.tid, req["id"]) in self.tl_entered
         if desc[0] == "acq" and isinstance(desc[1], VRLock):
-            if ph == "enter":
-                return [("shEnter" if req["sh"] else "exEnter"), vt.tid, req["bl"], req["re"]]
-            if ph == "exit":
-                return ["shExit", vt.tid]
+            if ph == "enter" and not entered:
+                return ("tl", [("shEnter" if req["sh"] else "exEnter"), vt.tid, req["bl"], req["re"]])
+            if ph == "exit" or (ph == "enter" and entered):  # normal exit, or unwinding after a process-level refusal
+                return ("tl", ["shExit", vt.tid])
         if desc[0] == "wait":
-            return ["exWake", vt.tid, req["re"]]
-        if desc[0] == "body-exit" and not req["sh"]:
-            return ["exExit", vt.tid]
+            return ("tl", ["exWake", vt.tid, req["re"]])
+        if desc[0] == "body-exit" and not req["sh"] and self.api == "thread":
+            return ("tl", ["exExit", vt.tid])
+        if desc[0] == "acq" and isinstance(desc[1], VLock) and desc[1].is_point:
+            if ph == "enter":
+                return ("pl", ["enter", vt.proc, vt.tid, req["sh"], req["bl"], req["re"]])
+            if ph == "exit":
+                return ("pl", ["exit", vt.proc, vt.tid, req["sh"]])
+        if desc[0] == "lockf":
+            return ("pl", ["lockf", vt.proc, vt.tid])
         return None
 
-    def real_lock_state(self, path):
-        ns = self.rt.procs[0]
+    def tl_key(self, vt, req):
+        return vt.proc * 10 + req["path"]
+
+    def real_proc_state(self, path):
+        rt = self.rt
+        pstr = f"/locks/p{path}"
+        kern = sorted((p, m == "ex") for p, m in rt.kernel.table.get(pstr, {}).items())
+        procs = []
+        for p, ns in enumerate(rt.procs):
+            sh, ex, pend = [], [], None
+            for fd, (pl, _rc) in ns["_process_level_lock_ref"]._refs.items():
+                if rt.kernel.fds.get((p, fd)) == pstr:
+                    sh = sorted(t for t, c in pl._shared_by.items() for _ in range(c))
+                    ex = sorted(t for t, c in pl._exclusively_held_by.items() for _ in range(c))
+                    pend = pl._lock.locked_by
+            procs.append((p, sh, ex, pend))
+        return {"kernel": kern, "procs": procs}
+
+    @staticmethod
+    def model_proc_state(st):
+        kern, procs = st
+        return {"kernel": sorted((int(p), m == "true") for p, m in kern),
+                "procs": [(int(p), [int(x) for x in sh], [int(x) for x in ex], None if pd == "none" else int(pd))
+                          for p, sh, ex, pd in procs]}
+
+    def real_lock_state(self, path, proc=0):
+        ns = self.rt.procs[proc]
         ent = ns["_thread_level_lock_ref"]._refs.get(f"/locks/p{path}")
         if ent is None:
             return None
@@ -292,6 +331,22 @@ class Exec:
                     if held is None or (not req["sh"] and held != "ex"):
                         self.fail("foreign-release", f"thread {vt.tid} is in a {'shared' if req['sh'] else 'exclusive'} body on path "
                                   f"{path} but its process holds {held!r} in the kernel lock table")
+        # a shared request of one process must not be kept waiting by a process that has no exclusive
+        # holder any more (its kernel entry should have been downgraded or removed)
+        for vt in rt.threads:
+            if vt.done or vt.pending is None or vt.pending[0][0] != "lockf" or vt.pending[1]():
+                continue
+            _, pstr, mode, _bl = vt.pending[0]
+            if mode != "sh":
+                continue
+            for q, m in rt.kernel.table.get(pstr, {}).items():
+                if q == vt.proc or m != "ex":
+                    continue
+                ns = rt.procs[q]
+                for fd, (pl, _rc) in ns["_process_level_lock_ref"]._refs.items():
+                    if rt.kernel.fds.get((q, fd)) == pstr and not pl._exclusively_held_by and pl._lock.locked_by is None:
+                        self.fail("stale-exclusive", f"thread {vt.tid} (process {vt.proc}) waits for a shared lock on {pstr} while process "
+                                  f"{q} still holds it exclusively in the kernel although none of its threads holds it exclusively")
         for vt in rt.threads:
             if vt.done or vt.pending is None or vt.phase is None:
                 continue
@@ -366,6 +421,7 @@ class Exec:
         rt = self.rt
         rt.start()
         steps = 0
+        pids = list(range(self.npids))
         try:
             while True:
                 en = rt.enabled()
@@ -374,11 +430,15 @@ class Exec:
                     for vt in rt.threads:
                         if vt.done or vt.pending is None:
                             continue
-                        ev = self.model_event(vt)
-                        if ev is None:
+                        me = self.model_event(vt)
+                        if me is None:
                             continue
-                        path = vt.phase[1]["path"]
-                        m = self.drv.ask(["enabled", path, ev])
+                        kind, ev = me
+                        req = vt.phase[1]
+                        if kind == "tl":
+                            m = self.drv.ask(["enabled", self.tl_key(vt, req), ev])
+                        else:
+                            m = self.drv.ask(["penabled", req["path"], ev])
                         real = vt.pending[1]()
                         if (m == "true") != real:
                             self.k.append(f"enabledness of {ev}: model {m} real {real}")
@@ -386,30 +446,19 @@ class Exec:
                     break
                 self.nchoices.append(len(en))
                 vt = self.chooser(steps, en)
-                ev = self.model_event(vt) if self.model_on else None
-                path = vt.phase[1]["path"] if (ev is not None) else None
+                me = self.model_event(vt) if self.model_on else None
+                req = vt.phase[1] if vt.phase else None
                 nlog = len(vt.log)
-                if ev is not None:
-                    self._req_of_event[vt.tid] = vt.phase[1]["id"]
+                if me is not None:
+                    self._req_of_event[vt.tid] = req["id"]
                 rt.grant(vt)
                 steps += 1
-                if ev is not None:
-                    ans = self.drv.ask(["step", path, ev])
-                    real_out = self.outcome_of(vt, ev, nlog)
-                    if ans[0] != "ok":
-                        self.k.append(f"step {ev}: model {ans} real {real_out}")
+                if me is not None:
+                    kind, ev = me
+                    if kind == "tl":
+                        self.replay_tl(vt, req, ev, nlog)
                     else:
-                        if ans[1] != real_out:
-                            self.k.append(f"step {ev}: model outcome {ans[1]} real {real_out}")
-                        real_st = self.real_lock_state(path)
-                        model_st = self.model_lock_state(ans[2])
-                        if real_st is None:
-                            real_st = {"counts": {}, "owner": None, "depth": 0, "waiting": [], "notified": []}
-                            # the lock object was dropped from the pool: the model must be idle too
-                        if real_st != model_st:
-                            self.k.append(f"state after {ev}: model {model_st} real {real_st}")
-                    self.tags.add("ev:" + ev[0])
-                    self.tags.add("out:" + real_out)
+                        self.replay_pl(vt, req, ev, nlog)
                 self.check_state()
                 if steps > 2000:
                     self.fail("livelock", "more than 2000 steps")
@@ -418,6 +467,94 @@ class Exec:
         finally:
             rt.finish()
         return steps
+
+    def replay_tl(self, vt, req, ev, nlog):
+        key = self.tl_key(vt, req)
+        ans = self.drv.ask(["step", key, ev])
+        real_out = self.outcome_of(vt, ev, nlog)
+        if self.api == "path" and ev[0] in ("shEnter", "exEnter", "exWake") and real_out == "entered":
+            # on the path API "entered" at the thread level means: the thread went on to the process level
+            pass
+        if ans[0] != "ok":
+            self.k.append(f"step {ev}: model {ans} real {real_out}")
+            return
+        model_out = ans[1]
+        if self.api == "path" and ev[0] in ("shEnter", "exEnter", "exWake") and model_out == "entered":
+            # the real outcome of the *request* is decided later by the process level; at the thread level
+            # we observe that the thread did not wait and did not raise a thread-level error
+            if real_out in ("waiting", "RecursiveDeadlockError") or (real_out == "WouldBlock" and self._last_exc_level(vt, nlog) == "Thread"):
+                self.k.append(f"step {ev}: model outcome entered real {real_out}")
+            else:
+                self.tl_entered.add((vt.tid, req["id"]))
+        else:
+            if model_out != real_out:
+                self.k.append(f"step {ev}: model outcome {model_out} real {real_out}")
+            if model_out == "entered":
+                self.tl_entered.add((vt.tid, req["id"]))
+        if ev[0] in ("shExit", "exExit"):
+            self.tl_entered.discard((vt.tid, req["id"]))
+        self.compare_tl(vt, req, ev, ans[2])
+        self.tags.add("ev:" + ev[0])
+        self.tags.add("out:" + real_out)
+
+    def _last_exc_level(self, vt, nlog):
+        for r, out in vt.log[nlog:]:
+            if "ThreadLevel" in out:
+                return "Thread"
+            if "ProcessLevel" in out:
+                return "Process"
+        return None
+
+    def compare_tl(self, vt, req, ev, st):
+        real_st = self.real_lock_state(req["path"], vt.proc)
+        model_st = self.model_lock_state(st)
+        if real_st is None:
+            real_st = {"counts": {}, "owner": None, "depth": 0, "waiting": [], "notified": []}
+        if real_st != model_st:
+            self.k.append(f"state after {ev}: model {model_st} real {real_st}")
+
+    def replay_pl(self, vt, req, ev, nlog):
+        pids = list(range(self.npids))
+        ans = self.drv.ask(["pstep", req["path"], ev, pids])
+        # real outcome of the process-level transition
+        if not vt.done and vt.pending is not None and vt.pending[0][0] == "lockf":
+            real_out = "inLockf"
+            if ev[0] == "exit":
+                self._pl_entering.add(vt.tid)  # here: "a downgrade lockf is pending for this thread"
+        elif ev[0] == "exit" or (ev[0] == "lockf" and vt.tid in self._pl_entering):
+            real_out = "exited"
+            self._pl_entering.discard(vt.tid)
+        else:
+            real_out = "entered"
+            for r, out in vt.log[nlog:]:
+                if r == req["id"] and out != "ok":
+                    real_out = out.split(":")[0]
+            if real_out == "entered" and not vt.done and vt.inflight:
+                # the exception is still propagating through the thread-level exit path
+                real_out = "WouldBlock" if "WouldBlock" in vt.inflight else vt.inflight
+        if ans[0] != "ok":
+            self.k.append(f"pstep {ev}: model {ans} real {real_out}")
+            return
+        if ans[1] != real_out:
+            self.k.append(f"pstep {ev}: model outcome {ans[1]} real {real_out}")
+        real_st = self.real_proc_state(req["path"])
+        model_st = self.model_proc_state(ans[2])
+        if real_st != model_st:
+            self.k.append(f"process state after {ev}: model {model_st} real {real_st}")
+        self.tags.add("pev:" + ev[0])
+        self.tags.add("pout:" + real_out)
+        # an exclusive thread-level frame is released without a scheduling point once the process level is
+        # left (normally or by an exception): replay that on the thread-level model too
+        if real_out in ("exited", "RecursiveDeadlockError", "WouldBlock") and not req["sh"] \
+                and (vt.tid, req["id"]) in self.tl_entered:
+            tev = ["exExit", vt.tid]
+            a2 = self.drv.ask(["step", self.tl_key(vt, req), tev])
+            self.tl_entered.discard((vt.tid, req["id"]))
+            if a2[0] != "ok":
+                self.k.append(f"step {tev} (after {ev}): model {a2}")
+            else:
+                self.compare_tl(vt, req, tev, a2[2])
+            self.tags.add("ev:exExit")
 
 
 def run_schedule(case, drv, prefix, rng):
@@ -448,7 +585,7 @@ def run_case(case, drv):
         tags.add(f"steps:{min(steps // 10 * 10, 60)}+")
     else:
         # all schedules, depth-first over the choice sequence (stateless re-execution)
-        limit = int(os.environ.get("VERIF_C15_MAXSCHED", "4000"))
+        limit = int(os.environ.get("VERIF_C15_MAXSCHED", 0)) or case.get("limit", 600)
         prefix, n = [], 0
         while True:
             ex, steps = run_schedule(case, drv, prefix, None)
